@@ -84,6 +84,25 @@ class Client:
                 '_receive_task': GV.make([(self.has_recv_task, self.recv_task), (z3.Not(self.has_recv_task), None)]),
                 'seed_network_map': Sym(z3.Bool('seed_network_map'), 'bool')}
         built.update(over)
+        # any other attribute that some method other than the constructor assigns is state with a history: its value at the
+        # start of a call is unknown, of the kind the constructor gives it
+        for a in sorted(assigned_outside_constructor(r, ci)):
+            if a in over or a not in built:
+                continue
+            v0 = built[a]
+            if isinstance(v0, (bytes, bytearray, SBytes)):
+                built[a] = ABuf(ex, tag=a, mutable=not isinstance(v0, bytes))
+            elif isinstance(v0, bool):
+                built[a] = Sym(z3.Bool(f'{a}0'), 'bool')
+            elif isinstance(v0, int):
+                built[a] = ex.fresh(f'{a}0')
+            elif isinstance(v0, str):
+                built[a] = SStr([Atom(f'{a}0')])
+            elif isinstance(v0, (dict, list, set)):
+                from pyvc.abssets import HavocState
+                built[a] = HavocState(f'{cls}.{a}')
+            elif v0 is None:
+                built[a] = Opaque(f'{cls}.{a}')
         self.attr0 = dict(built)
         self.g1 = []          # (description, z3 Bool): obligations "CLOSED is never left" raised at writes of _state
         self.lock.held_by_other = z3.Bool('connect_lock_held_by_another_task')
@@ -124,6 +143,9 @@ class Client:
                 self.world.event('link-replaced', nw)
 
 
+from pyvc.symex import assigned_outside_constructor
+
+
 def default_await(client, reads=None, allow_cancel=True):
     """Await policy built from the dependency contracts (assumed; see DESIGN Appendix B)."""
     def on_await(ex, w, a):
@@ -136,11 +158,14 @@ def default_await(client, reads=None, allow_cancel=True):
         if k == 'callback':
             w.event('callback', a.info['which'], a.info['arg'], client.obj.attrs['_state'])
             suspend()
-            c = ex.choose(3 if allow_cancel else 2, 'callback-outcome')
+            c = ex.choose(4 if allow_cancel else 3, 'callback-outcome')
             if c == 1:
                 raise PyRaise(make_exc('RuntimeError', 'raised by the user callback'))
-            if c == 2:
+            if c == 2 and allow_cancel:
                 raise PyRaise(make_exc('CancelledError'))
+            if c >= 2:
+                # user code may raise anything: here an exception without arguments (a bare `assert`, `raise KeyError`)
+                raise PyRaise(make_exc('AssertionError'))
             return None
         if k == 'queue.put':
             w.event('put', a.info['item'])      # unbounded queue: put never suspends
@@ -773,9 +798,12 @@ def make_reads(st, kind):
             n = a.info['args'][0]
             data = SBytes([ex.fresh(f'rx[{i}]', bits=8) for i in range(n)])
         elif how == 'readline':
-            data = Line(len(w.of('data')))
+            # a line: at least one byte, content unknown (at end of stream the last line may lack its terminator)
+            data = ABuf(ex, tag='line', mutable=False)
+            ex.assume(data.n >= 1)
         else:
             limit = a.info['args'][0]
+            limit = V.int_term(limit) if isinstance(limit, Sym) else limit
             data = ABuf(ex, tag='rx', mutable=False)
             ex.assume(z3.And(data.n >= 1, data.n <= limit))
         w.event('data', data)
@@ -874,6 +902,10 @@ class ReceiveImplTask(MethodTask):
                 d = st['decode_calls'][0]
                 ok = d is st['data'] or (isinstance(d, TextOf) and d.buf is st['data'])
                 add('decoder-receives-the-packet-read', ok, f'decoder argument {d!r}')
+                if self.cls == 'EByteNmea2000Gateway':
+                    # fixed framing: every packet of this gateway is 13 bytes, however the transport cuts the stream into reads
+                    ln = d.n == 13 if isinstance(d, ABuf) else (len(d) == 13 if isinstance(d, (SBytes, bytes, bytearray)) else False)
+                    add('decoder-receives-exactly-13-bytes', ln, 'a read that returns fewer than 13 bytes is handed to the decoder: the stream loses its 13-byte alignment', 'segmented-reads')
 
     def sorry(self, p, st):
         return self.cls == 'EByteNmea2000Gateway' and p.exc_name() == 'Exception'
